@@ -26,6 +26,9 @@ def seeded_table():
         name = os.path.basename(os.path.dirname(m))
         needs = " ".join((d.get("needs") or "").split())[:260].replace("|", "\\|")
         det = ", ".join(d.get("detected_by", [])) or "**not caught**"
+        if d.get("obsolete"):
+            det = "obsolete on the current tree (" + d["obsolete"].split(": ", 1)[-1][:90] + "); caught when delivered: " + \
+                (", ".join((d.get("first_run") or {}).get("detected_by") or d.get("detected_by") or []) or "after strengthening")
         how = "; ".join(sorted({re.sub(r"replay=\S+ ", "", l)[:90] for c in d.get("checks", {}).values() for l in c.get("lines", []) if l.startswith("VIOLATION")}))[:300]
         rows.append("| %s | %s | %s | %s |" % (name, needs, det, how.replace("|", "\\|")))
     return "\n".join(rows)
